@@ -25,6 +25,9 @@ TAG_FUNCS = ['gdstk::Library::rename_cell', 'gdstk::Library::replace_cell', 'gds
              'gdstk::Reference::init', 'gdstk::Cell::get_dependencies', 'gdstk::Cell::get_raw_dependencies', 'gdstk::Reference::bounding_box', 'gdstk::Reference::convex_hull',
              'gdstk::Reference::get_polygons', 'gdstk::Reference::get_flexpaths', 'gdstk::Reference::get_robustpaths', 'gdstk::Reference::get_labels',
              'gdstk::Reference::to_gds', 'gdstk::Reference::to_svg']
+# replace_cell is decided by interpretation (R-MODEL.replace); the tables read off its switch arms, its size and rename locals
+# and its container update compare spellings and are evidence only
+ADVISORY = [('R-TABLE', r'^replace_cell\('), ('R-CONST', r'^replace_cell\(')]
 KIND = {'gdstk::Cell *': 'Cell', 'gdstk::RawCell *': 'RawCell', 'Cell *': 'Cell', 'RawCell *': 'RawCell'}
 MEMBER = {'Cell': 'cell', 'RawCell': 'rawcell', 'Name': 'name'}
 TAGV = {0: 'Cell', 1: 'RawCell', 2: 'Name'}
@@ -225,6 +228,171 @@ def check_replace(ctx, db):
                 if 'ref->type' in stores:
                     order = [re.sub(r'^v\d+->', 'ref->', norm(x.child('lhs').text(ren))) for x in then if is_assign(x)]
                     ctx.check(order.index('ref->type') < order.index('ref->%s' % MEMBER[new_k]), 'R-TAGUNION', key + '/tag-then-member', top.loc(), 'the tag is stored before the member of the new kind')
+
+
+def replace_model(db, old_kind, new_kind, same_name, in_library):
+    """Library::replace_cell(old, new) for one of the four overloads, interpreted (sa/minieval) on a small library: a top cell whose
+    references point - by pointer - to the old cell (when it is a Cell), to another cell, to a different cell that merely has the
+    old name (one of each kind: the one of the old cell's own kind is a different object and stays); - as raw cells - to the old raw cell (when it is one), to a raw cell that has the old name, to another raw cell; - by
+    name - to the old name and to a longer name; a second cell repeats the by-pointer / by-name references. Strings, allocation
+    and the array methods are answered by the harness. Returns the list of problems."""
+    from .. import minieval as M
+    fs = db.fn('gdstk::Library::replace_cell', all=True)
+    f = next((x for x in fs if KIND.get(x.params[0]['t']) == old_kind and KIND.get(x.params[1]['t']) == new_kind), None)
+    if f is None:
+        raise AnalysisBroken('replace_cell(%s -> %s) not found' % (old_kind, new_kind))
+    en = {c['n']: c['v'] for c in db.enum('gdstk::ReferenceType')['consts']}
+    NEWN = 'old' if same_name else 'fresh!'
+
+    lists = []
+
+    def arr(lst):
+        lists.append(lst)
+        return M.Obj(items=M.Ptr(lst, 0) if lst else 0, count=len(lst), capacity=len(lst))
+    old = M.Obj(name='old', reference_array=arr([]), ident='OLD')
+    new = M.Obj(name=NEWN, reference_array=arr([]), ident='NEW')
+    other = M.Obj(name='x', reference_array=arr([]), ident='X')
+    twin = M.Obj(name='old', reference_array=arr([]), ident='TWIN')          # of the OTHER kind than old: reached by name only
+    raw_other = M.Obj(name='rx', ident='RX')
+
+    def cref(c):
+        return M.Obj(type=en['Cell'], cell=c, tag_='c:' + c['ident'])
+
+    def rref(c):
+        return M.Obj(type=en['RawCell'], rawcell=c, tag_='r:' + c['ident'])
+
+    def nref(nm):
+        return M.Obj(type=en['Name'], name=nm, tag_='n:' + nm)
+    r_top = [cref(other), nref('old'), nref('oldx'), rref(raw_other)]
+    r_two = [nref('old')]
+    same = M.Obj(name='old', reference_array=arr([]), ident='SAME')          # of the SAME kind as old, with its name, from another library: not the old cell
+    if old_kind == 'Cell':
+        r_top += [cref(old), rref(twin), cref(same)]
+        r_two += [cref(old)]
+    else:
+        r_top += [rref(old), cref(twin), rref(same)]
+        r_two += [rref(old)]
+    top = M.Obj(name='top', reference_array=arr(r_top), ident='TOP')
+    two = M.Obj(name='two', reference_array=arr(r_two), ident='TWO')
+    cells = [top, other, two] + ([twin] if old_kind == 'RawCell' else []) + ([old] if old_kind == 'Cell' and in_library else [])
+    raws = [raw_other] + ([twin] if old_kind == 'Cell' else []) + ([old] if old_kind == 'RawCell' and in_library else [])
+    if in_library and len(cells) > 3 and old_kind == 'Cell':
+        cells = [top, old, other, two]           # not the last entry: remove_unordered moves another cell into its slot
+    this = M.Obj(cell_array=arr(cells), rawcell_array=arr(raws))
+    before = {'cells': [c['ident'] for c in cells], 'raws': [c['ident'] for c in raws]}
+    problems = []
+    ref = [None]
+
+    def text(v):
+        if isinstance(v, M.Obj) and v.get('buf'):
+            return v.get('text')
+        return v if isinstance(v, str) else None
+
+    def extra(callee, args, node):
+        c = callee or ''
+        short = c.split('::')[-1]
+        if short == 'strlen':
+            t = text(args[0])
+            if t is None:
+                problems.append('strlen of something that is not a string at %s' % node.loc())
+                return (0,)
+            return (len(t),)
+        if short == 'strcmp':
+            a, b = text(args[0]), text(args[1])
+            if a is None or b is None:
+                problems.append('a name is compared that is not a string at %s (a member of the union that is not the active one)' % node.loc())
+                return (1,)
+            return ((a > b) - (a < b),)
+        if short == 'reallocate':
+            return (M.Obj(buf=True, size=int(args[1]), text=None),)
+        if short == 'memcpy':
+            d, src, n = args[0], text(args[1]), int(args[2])
+            if not (isinstance(d, M.Obj) and d.get('buf')) or src is None:
+                problems.append('memcpy into something that was not allocated here at %s' % node.loc())
+                return (args[0],)
+            if n > d['size']:
+                problems.append('memcpy of %d bytes into %d at %s' % (n, d['size'], node.loc()))
+            d['text'] = src if n == len(src) + 1 else ('%s<unterminated>' % src[:n])
+            return (args[0],)
+        if short == 'copy_string':
+            t = text(args[0])
+            return (M.Obj(buf=True, size=len(t) + 1, text=t),)
+        if short == 'free_allocation':
+            return (None,)
+        if c.startswith('gdstk::Array<') and short in ('index', 'remove_unordered', 'contains'):
+            o = ref[0].call_object()
+            lst = o['items'].arr[o['items'].i:o['items'].i + o['count']] if o.get('count') else []
+            if short in ('index', 'contains'):
+                k_ = next((i_ for i_, x_ in enumerate(lst) if x_ is args[0]), len(lst))
+                return (k_,) if short == 'index' else (int(k_ < len(lst)),)
+            i_ = int(args[0])
+            if not (0 <= i_ < o['count']):
+                raise M.OutOfBounds('remove_unordered(%d) on an array of %d at %s' % (i_, o['count'], node.loc()))
+            o['items'].arr[o['items'].i + i_] = o['items'].arr[o['items'].i + o['count'] - 1]
+            o['count'] -= 1
+            return (None,)
+        return None
+    mi = M.Mini(db, hook=M.array_hook(ref, extra), budget=200000)
+    mi.obj_store = True
+    ref[0] = mi
+    for l_ in lists:
+        mi.writable.add(id(l_))
+    try:
+        mi.run(f.body, {'this': this, f.params[0]['n']: old, f.params[1]['n']: new})
+    except M.Return:
+        pass
+    except M.OutOfBounds as ex:
+        problems.append(str(ex))
+        return problems
+
+    def members(a):
+        return [x['ident'] for x in (a['items'].arr[a['items'].i:a['items'].i + a['count']] if a['count'] else [])]
+    key_old, key_new = ('cells' if old_kind == 'Cell' else 'raws'), ('cells' if new_kind == 'Cell' else 'raws')
+    want = {k_: list(v_) for k_, v_ in before.items()}
+    if in_library:
+        if old_kind == new_kind:
+            want[key_old] = ['NEW' if x == 'OLD' else x for x in want[key_old]]
+        else:
+            want[key_old] = [x for x in want[key_old] if x != 'OLD']
+            want[key_new] = want[key_new] + ['NEW']
+    got = {'cells': members(this['cell_array']), 'raws': members(this['rawcell_array'])}
+    if got['cells'] != want['cells'] if old_kind == new_kind else (sorted(got['cells']) != sorted(want['cells'])):
+        problems.append('cell_array holds %s afterwards, expected %s' % (got['cells'], want['cells']))
+    if got['raws'] != want['raws'] if old_kind == new_kind else (sorted(got['raws']) != sorted(want['raws'])):
+        problems.append('rawcell_array holds %s afterwards, expected %s' % (got['raws'], want['raws']))
+    new_tag = en[new_kind]
+    field = 'cell' if new_kind == 'Cell' else 'rawcell'
+    for r in r_top + r_two:
+        t0 = r['tag_']
+        hit = t0 in ('c:OLD', 'r:OLD', 'c:TWIN', 'r:TWIN')
+        if t0.startswith('n:'):
+            exp = NEWN if t0 == 'n:old' else t0[2:]
+            if r['type'] != en['Name'] or text(r.get('name')) != exp:
+                problems.append('the by-name reference to `%s` reads `%s` (type %s) afterwards, expected `%s`' % (t0[2:], text(r.get('name')), r['type'], exp))
+        elif hit:
+            if r['type'] != new_tag or r.get(field) is not new:
+                problems.append('the reference %s is of type %s and points to %s afterwards, expected type %s pointing to the new %s' % (t0, r['type'], (r.get(field) or {}).get('ident') if isinstance(r.get(field), M.Obj) else r.get(field), new_tag, new_kind))
+        else:
+            k0, f0 = (en['Cell'], 'cell') if t0.startswith('c:') else (en['RawCell'], 'rawcell')
+            if r['type'] != k0 or not isinstance(r.get(f0), M.Obj) or r[f0]['ident'] != t0[2:]:
+                problems.append('the reference %s, which has nothing to do with the old cell, was changed' % t0)
+    return problems
+
+
+def check_replace_model(ctx, db):
+    """R-MODEL.replace: the four overloads x {new name differs, same name} x {old cell in the library, not in it}."""
+    n = 0
+    for ok_, nk_ in (('Cell', 'Cell'), ('Cell', 'RawCell'), ('RawCell', 'Cell'), ('RawCell', 'RawCell')):
+        f = next(x for x in db.fn('gdstk::Library::replace_cell', all=True) if KIND.get(x.params[0]['t']) == ok_ and KIND.get(x.params[1]['t']) == nk_)
+        ctx.touch(f)
+        for same in (0, 1):
+            for inlib in (1, 0):
+                n += 1
+                pr = replace_model(db, ok_, nk_, same, inlib)
+                ctx.check(not pr, 'R-MODEL.replace', 'replace_cell(%s->%s)/%s,%s' % (ok_, nk_, 'same name' if same else 'new name', 'in library' if inlib else 'not in library'), f.loc(),
+                          'the container is updated, references of the old kind by identity and of the other kind by name point to the new cell with the new kind, by-name references follow the name, nothing else changes', '; '.join(pr[:2]))
+    ctx.explored['valuations'] += n
+    ctx.require('R-MODEL.replace scenarios', n, 16)
 
 
 def rename_model(db, by_name, missing=False):
@@ -513,6 +681,7 @@ def run(ctx):
     ctx.require('R-TAGUNION member accesses', n, 60)
     ctx.attempt(check_replace, ctx, db)
     ctx.attempt(check_rename, ctx, db)
+    ctx.attempt(check_replace_model, ctx, db)
     ctx.attempt(check_dependencies, ctx, db)
     ctx.attempt(check_top_level, ctx, db)
     ctx.attempt(check_tag_aggregators, ctx, db)
@@ -540,7 +709,7 @@ def run(ctx):
 
 
 MANIFEST = dict(
-    text='Decides structural necessary conditions of library edits for all references and kinds: tagged-union discipline on every Reference member access in the edit/query functions; the rewrite table (arm -> match condition, stores, container update) of each of the four replace_cell overloads and of rename_cell equals the table derived from its signature (pointer match for the old kind, full strcmp on names otherwise, tag stored before the member when the kind changes, name reallocated and copied with 1+strlen(new_name)); every overload visits all cells x all references x all three reference kinds; top_level keeps exactly the cells the direct-dependency maps do not hold; dependency collectors guard recursion by pointer identity and always record the target; tag aggregators visit every tagged element kind and every path element; a deep library copy re-points references into the copy; every element cursor (pointer set to an array start) that a loop of cell.cpp/library.cpp dereferences moves in that loop. Equivalence with an abstract graph model over operation sequences is not decided. Library::rename_cell (both overloads) is decided by interpretation on a three-cell library (R-MODEL.rename): exactly the by-name references equal in full to the old name are rewritten, the cell is renamed, by-pointer and raw references are never compared as strings, the copy fits the block.',
+    text='Decides structural necessary conditions of library edits for all references and kinds: tagged-union discipline on every Reference member access in the edit/query functions; the rewrite table (arm -> match condition, stores, container update) of each of the four replace_cell overloads and of rename_cell equals the table derived from its signature (pointer match for the old kind, full strcmp on names otherwise, tag stored before the member when the kind changes, name reallocated and copied with 1+strlen(new_name)); every overload visits all cells x all references x all three reference kinds; top_level keeps exactly the cells the direct-dependency maps do not hold; dependency collectors guard recursion by pointer identity and always record the target; tag aggregators visit every tagged element kind and every path element; a deep library copy re-points references into the copy; every element cursor (pointer set to an array start) that a loop of cell.cpp/library.cpp dereferences moves in that loop. Equivalence with an abstract graph model over operation sequences is not decided. Library::rename_cell (both overloads) is decided by interpretation on a three-cell library (R-MODEL.rename): exactly the by-name references equal in full to the old name are rewritten, the cell is renamed, by-pointer and raw references are never compared as strings, the copy fits the block. Library::replace_cell (four overloads x new/same name x in/not in the library) is decided by interpretation on a small library (R-MODEL.replace); the tables read off its switch arms are advisory.',
     note='Trusted: clang front end, gx, sa rules. The expected tables are computed from parameter types (kind(old), kind(new)), not frozen text; conditions are compared after cast normalisation. Readers\' by-name resolution at ENDLIB/END is deliberately not an instance.',
     technique='tagged-union typestate over the AST (constraint intersection) + table extraction from switch arms compared with a signature-derived specification + explicit-state model of the name/tag hash tables by interpretation of their source (shared with C20) + interpretation of rename_cell on a small library (sa/minieval)',
     design='§4 C16')
